@@ -34,6 +34,12 @@ theorem apiKill_ok_sigVal (a : Actor) (h : (apiKill a).2 = true) : (apiKill a).1
     · rename_i h1 h2; simp [h1, h2] at h
     · rfl
 
+@[simp] theorem evs_map_monSend (l : List Nat) (e : SupEv) :
+    evs (l.map (fun x => Out.eff (.monSend x e))) = [] := by
+  induction l with
+  | nil => rfl
+  | cons x l ih => simpa using ih
+
 @[simp] theorem andThen_fst (x : M) (f : Actor → M) : (andThen x f).1 = (f x.1).1 := rfl
 @[simp] theorem andThen_snd (x : M) (f : Actor → M) : (andThen x f).2 = x.2 ++ (f x.1).2 := rfl
 
@@ -49,14 +55,15 @@ theorem step_eq (a : Actor) (op : AOp) :
 /-! ### exit paths only emit supervision events and the join / spawn result -/
 
 def Ev.isExitNoise : Ev → Bool
-  | .emit _ _ | .join _ | .spawnRet _ => true
+  | .emit _ _ | .join _ | .spawnRet _ | .monFan _ _ _ => true
   | _ => false
 
 theorem cleanup_noise (a : Actor) (e : Option SupEv) : ∀ x ∈ evs (cleanup a e).2, x.isExitNoise = true := by
   unfold cleanup
   split
   · simp
-  · cases e <;> cases hs : a.sup <;> simp [Actor.setStatus, hs, Ev.isExitNoise]
+  · cases e <;> cases hs : a.sup <;> cases hm : a.mons <;>
+      simp [Actor.setStatus, hs, hm, notifyOuts, Ev.isExitNoise, evs_map_monSend]
 
 theorem finish_noise (a : Actor) (e : SupEv) : ∀ x ∈ evs (finish a e).2, x.isExitNoise = true := by
   intro x hx
